@@ -438,6 +438,10 @@ def rdf_orphans(c):
     return out
 
 
+def rdf_empty_dirs(c):
+    return empty_ancestors(c["before"], c["after"]) if c.get("all_parents_marked") else []
+
+
 def rdf_witness(c):
     return {k: c.get(k) for k in ("directed", "desc", "queue", "before", "after", "removed_events", "crash", "left")}
 
@@ -654,7 +658,97 @@ def finalize_orphans(res):
                             f"orphaned output) was removed by this cleanup and the link stays behind, dangling"))
                 continue
         out.append((f"own:c07:orphan-kept:{what(ent)}", f"{p} (state {n['fstate']}) is an unmodified orphan and still on disk"))
+    trees = [n["key"][1] for n in res["after_graph"]["nodes"] if n["key"][0] == cc.KIND["st"] and not n["det"]]
+    out += empty_ancestors(res["before"], res["after"], trees)
     return out
+
+
+def empty_ancestors(before, after, trees=()):
+    """C07, "together with the directories StepUp created for it that became empty": a directory above a removed file
+    (its parent, or any ancestor) that is left behind EMPTY.  Directories of attached static trees and links are
+    exempt."""
+    out = []
+    seen = set()
+    for p, ent in sorted(before.items()):
+        if p in after or ent[0] == "dir":
+            continue
+        d, level = os.path.dirname(p), 0
+        while d:
+            if d in seen:
+                break
+            a = after.get(d)
+            if a is not None and a[0] == "dir" and not any(q.startswith(d + "/") for q in after) \
+                    and not any((d + "/").startswith(t) for t in trees):
+                seen.add(d)
+                kind = "parent" if level == 0 else "ancestor"
+                siblings = sorted({q[len(d) + 1:].split("/")[0] for q in before if q.startswith(d + "/")})
+                circ = "several-sub-directories-emptied" if len(siblings) > 1 else "single-chain"
+                out.append((f"own:c07:empty-dir-kept:{kind}:{circ}",
+                            f"{d} held nothing but what this cleanup removed ({siblings}) and is left behind empty"))
+            d, level = os.path.dirname(d), level + 1
+    return out
+
+
+SIBLING_SHAPES = {
+    "two-siblings": ["results/a/one.txt", "results/b/two.txt"],
+    "deep-fork": ["results/a/x/one.txt", "results/a/y/two.txt", "results/b/three.txt"],
+    "three-levels": ["top/mid/a/1.txt", "top/mid/b/2.txt", "top/other/3.txt"],
+    "with-file-beside": ["res/a/1.txt", "res/b/2.txt", "res/direct.txt"],
+}
+
+
+def sibling_dirs_witness(shape, volatile=False):
+    """Steps whose outputs live in sibling sub-directories of one created parent (and deeper forks); all of them are
+    dropped by the next run of the plan; nobody touches anything."""
+    outs = SIBLING_SHAPES[shape]
+
+    def witness(b):
+        b.link_prob = 0.0
+        b.write("src.txt", "source")
+        b.declare_static(b.w.plan, "src.txt")
+        for i, o in enumerate(outs):
+            b.define(b.w.plan, f"mk{i}", inp=["src.txt"], out=[] if volatile else [o], vol=[o] if volatile else [])
+        b.define(b.w.plan, "other", inp=["src.txt"], out=["other.txt"])
+        b.complete_all(list(b.steps))
+        b.meta()
+        b.log.append(["build-1 complete; outputs:", outs])
+        b.rerun(b.w.plan, keep_step=lambda inf: not str(inf.command).startswith("mk"))
+        b.log.append(["build-2: the plan no longer declares mk*"])
+        return list(b.steps)
+    witness.info = {"family": "sibling-dirs", "shape": shape, "volatile": volatile, "outputs": outs}
+    return witness
+
+
+async def sibling_rdf_case(shape):
+    """The same on a hand-made queue: every output queued with its hash, the parent of each marked (what
+    File.before_delete does), the real remove_deletable_files."""
+    from stepup.core.finalize import remove_deletable_files
+    from stepup.core.hash import FileHash
+    hids = cc.HashIds()
+    outs = SIBLING_SHAPES[shape]
+    with cc.project_dir():
+        async with WF() as w:
+            wf = w.wf
+            owned = {}
+            for o in outs:
+                os.makedirs(os.path.dirname(o), exist_ok=True)
+                Path(o).write_text("built " + o)
+            async with w.db:
+                for o in outs:
+                    wf.to_be_deleted[o] = FileHash.unknown().refreshed(o)
+                    owned[o] = {"volatile": False, "digest": lentry(o)[1]}
+                    wf.mark_dir_to_be_deleted(Path(o).parent)
+            before = lsnap(".", hids)
+            queue = {str(k): (None if v is None else "hash") for k, v in wf.to_be_deleted.items()}
+            qfiles, qdirs = cc.dump_queue(wf, hids)
+            client, reporter = cc.make_reporter()
+            crash = await cc.call_cleanup(w, "remove_deletable_files", lambda: remove_deletable_files(wf, reporter))
+            after = lsnap(".", hids)
+            removed = [x for t, x in client.reports if t == "REMOVE"]
+            left = {str(k): str(v) for k, v in wf.to_be_deleted.items()}
+    return {"desc": [[o, "hashed", None] for o in outs], "queue": queue, "before": before, "after": after,
+            "removed_events": removed, "owned": owned, "left": left, "qfiles": qfiles, "qdirs": sorted(qdirs),
+            "directed": {"family": "sibling-dirs", "shape": shape}, "crash": crash, "all_parents_marked": True}
 
 
 def finalize_witness(res):
@@ -738,6 +832,11 @@ async def _run_all(ctx, n_rdf, n_fin, n_clean):
         d = ["", "d1/"][(j + ctx.seed) % 2]
         out["rdf"].append(await link_pair_case(order, d))
         out["fin"].append(await finalize_case(ctx.rng, "none", witness=link_pair_witness(order, d), quiet=True))
+    shapes = sorted(SIBLING_SHAPES)
+    for j, shape in enumerate(shapes):
+        out["rdf"].append(await sibling_rdf_case(shape))
+        out["fin"].append(await finalize_case(ctx.rng, "none", witness=sibling_dirs_witness(shape, volatile=(j + ctx.seed) % 3 == 2),
+                                              quiet=True))
     for k in range(n_rdf):
         # every tamper is forced once per len(TAMPERS) cases, the rest is random
         out["rdf"].append(await rdf_case(ctx.rng, force=TAMPERS[(k + ctx.seed) % len(TAMPERS)] if k % 2 == 0 else None))
@@ -779,7 +878,7 @@ def run_families(ctx, n_rdf, n_fin, n_clean, c06=True, c07=False, suffix="", res
             for sig, detail in rdf_oracle(c):
                 emit("own:remove_deletable_files", sig, detail, rdf_witness(c))
         if c07:
-            for sig, detail in rdf_orphans(c):
+            for sig, detail in rdf_orphans(c) + rdf_empty_dirs(c):
                 emit("own:remove_deletable_files", sig, detail, rdf_witness(c))
     for r in res["fin"]:
         gone = [p for p in r["before"] if p not in r["after"]]
